@@ -52,6 +52,7 @@ func init() {
 		"Ticks":       zzTicks,
 		"AllowMainBlock": zzAllowMainBlock,
 		"BlockForever":   zzBlockForever,
+		"WaitUntil":      zzWaitUntil,
 		"LastDoneCheckSawClosed": zzLastDoneSawClosed,
 		"ThreadID":    zzThreadID,
 		"Symbolic":    func(fr *frame, args []value) value { return true },
@@ -412,6 +413,19 @@ func zzAllowMainBlock(fr *frame, args []value) value {
 
 func zzBlockForever(fr *frame, args []value) value {
 	fr.m.block("BlockForever", func() bool { return false })
+	return nil
+}
+
+// WaitUntil blocks the calling thread until the (side-effect free, lock free)
+// predicate holds.
+func zzWaitUntil(fr *frame, args []value) value {
+	m := fr.m
+	pred := args[0]
+	m.schedPoint("waituntil")
+	m.block("WaitUntil", func() bool {
+		b, ok := call(m, nil, 0, pred, nil).(bool)
+		return ok && b
+	})
 	return nil
 }
 
